@@ -79,8 +79,13 @@ def parse_family(run, prop, want, rule_text, extra_cases=None, kind=None):
     if kind:
         lines = [json.loads(l) for l in open(cases, encoding="utf-8") if l.strip()]
         with open(cases, "w", encoding="utf-8") as f:
-            for c in lines:
+            for i, c in enumerate(lines):
+                # quick tier: the views of every second generated document (rotating with the seed)
+                if run.tier == "quick" and prop in ("C08", "C09") and (i + run.seed) % 2 != 0:
+                    continue
                 c["kind"] = kind
+                if prop == "C10":
+                    c["workers"] = list(range(2, 34))
                 f.write(json.dumps(c, ensure_ascii=False) + "\n")
     if extra_cases:
         with open(cases, "a", encoding="utf-8") as f:
@@ -103,11 +108,13 @@ def parse_family(run, prop, want, rule_text, extra_cases=None, kind=None):
                 eol = rnd.choice(["\n", "\r\n"])
                 parts = [rnd.choice(good) for _ in range(rnd.randrange(3, 25))]
                 nf = 0 if want == "valid" else (rnd.randrange(1, 4) if want == "invalid" else rnd.randrange(0, 3))
+                if want == "invalid" and i % 6 == 0:
+                    nf = rnd.randrange(7, 13)        # many faulty lines in one text
                 for _ in range(nf if bad else 0):
                     parts[rnd.randrange(len(parts))] = rnd.choice(bad)
                 sep = rnd.choice(["", eol, eol + "  " + eol])
                 text = "".join(p + ("" if p.endswith("\n") else eol) + eol + sep for p in parts)
-                f.write(json.dumps({"kind": kind or "parse", "text": text, "claim": "random", "line": 0, "workers": [2, 7]},
+                f.write(json.dumps({"kind": kind or "parse", "text": text, "claim": "random", "line": 0, "workers": list(range(2, 19)) if prop == "C10" else [2, 7], "channels": True},
                                    ensure_ascii=False) + "\n")
                 nbig += 1
     run.extra["random_large_documents"] = nbig
@@ -163,6 +170,25 @@ def c06(run):
                 t = a[:rnd.randrange(len(a) + 1)] + b[rnd.randrange(len(b) + 1):]
             f.write(json.dumps({"kind": "fuzz", "text": t}, ensure_ascii=False) + "\n")
         f.write(json.dumps({"kind": "fuzz", "text": "2020-01-01\n    1h " + "long " * 4000 + "\n"}, ensure_ascii=False) + "\n")
+        # random conforming documents rich in values (should-totals from tiny to huge, entries of every width, open
+        # ranges, shifted times, dates around the clock's date), every read-only command incl. the --now variants
+        import datetime
+        shoulds = ["", "", " (8h!)", " (100h!)", " (-3h!)", " (0m!)", " (30m!)", " (2000h!)", " (1m!)", " (-500h15m!)"]
+        ents = ["1h", "15m", "7h45m", "-8h30m", "8:00 - 16:30", "<23:00 - 1:00>", "0m", "23:59 - 23:59>", "123h", "-1m",
+                "<0:00 - 23:59>", "12:00am - 11:59pm", "1h #a", "9:00-9:00 #a=1", "-0m", "+5h", "99h59m", "0:00 - 0:00>", "3m x\n        y #b"]
+        opens = ["8:00 - ?", "<23:30 - ?", "0:00 - ???", "11:59 - ? #a", "12:30> - ?", "12:00 - ?"]
+        for i in range(600 if run.tier == "quick" else 40000):
+            day0 = datetime.date(2020, 1, 1) + datetime.timedelta(days=rnd.choice([0, 0, 0, 58, 59, 365, -1, 4, -366]))
+            recs = []
+            for off in sorted(rnd.sample([-400, -60, -8, -7, -2, -1, 0, 0, 1, 2, 6, 31], rnd.randrange(1, 5))):
+                d = day0 + datetime.timedelta(days=off)
+                es = [rnd.choice(ents) for _ in range(rnd.randrange(0, 4))]
+                if rnd.random() < (0.6 if off in (0, -1) else 0.04):
+                    es.insert(rnd.randrange(len(es) + 1), rnd.choice(opens))
+                head = d.strftime(rnd.choice(["%Y-%m-%d", "%Y/%m/%d"])) + rnd.choice(shoulds)
+                recs.append(head + "\n" + (rnd.choice(["", "Text #a #c=x\n"])) + "".join("    " + e + "\n" for e in es))
+            now = "%sT%02d:%02d:%02d" % (day0.isoformat(), rnd.choice([0, 0, 7, 12, 12, 23]), rnd.choice([0, 1, 30, 59]), rnd.randrange(60))
+            f.write(json.dumps({"kind": "fuzz", "text": "\n".join(recs), "all": True, "now": now}, ensure_ascii=False) + "\n")
     obs = run.drive(cases, case_timeout=300, env={"KDRIVE_NCMDS": "4" if run.tier == "quick" else "0"})
     flagged = run.judge("Trace_Parse", obs, env={"KV_RULES": "C06"}, chunk=20000)
     run.assumptions = ["coverage-guided mutation is not part of this technique; the input space is the token language, "
@@ -172,7 +198,9 @@ def c06(run):
         "all token sequences up to the tier's length over a 24-token alphabet of klog fragments (invalid UTF-8 symbols, NUL, "
         "lone CR, huge numbers) plus generated documents and mutants, seeded random byte strings, random fragment sequences and random "
         "splices of generated documents: serial and parallel parse (2, 3, len+1 workers), "
-        "for accepted input 14 read-only commands through the real CLI entry point, for rejected input both error renderings")
+        "for accepted input 25 read-only commands (incl. the --now variants) through the real CLI entry point, for rejected "
+        "input both error renderings; plus seeded random value-rich conforming documents (should-totals from 0m to thousands of "
+        "hours, entries of every width, open ranges, shifted times) around a random clock with all 25 commands")
 
 
 @check("C08", "Trace_Parse")
@@ -233,7 +261,7 @@ def flatten_cli(run, obs_path, out_name="events.ndjson"):
                       "obs": {"post": post, "code": st["code"], "err": st["err"][:300], "touched": fname in st.get("touched", []),
                               "parsed_ok": bool(parsed.get("ok")), "records": parsed.get("records", []),
                               "repeat_equal": bool(o.get("repeat_equal", True)), "ticks_run": st.get("ticks_run", 0),
-                              "tick_files": st.get("tick_files", [])},
+                              "tick_files": st.get("tick_files", []), "tick_pre": st.get("tick_pre", [])},
                       "panic": ""}
                 g.write(json.dumps(ev, ensure_ascii=False) + "\n")
                 n += 1
@@ -247,7 +275,7 @@ def cli_family(run, rules, modes, rule_text, flagged=None, full_model=False):
     for mode in modes:
         if mode == "long":
             # random walks through the command model (TLC simulation mode): histories of 12 commands
-            n = 40 if run.tier == "quick" else 2000
+            n = 16 if run.tier == "quick" else 2000
             cases, r = run.mc("MC_Cli", {"KV_MODE": mode}, out_name="cases-%s.ndjson" % mode, workers=1, cfg="MC_CliLite",
                               simulate="num=%d" % n, extra=["-depth", "13", "-seed", str(run.seed)])
         else:
@@ -255,6 +283,20 @@ def cli_family(run, rules, modes, rule_text, flagged=None, full_model=False):
             # histories in the quick tier and on everything in the thorough tier
             use = cfg if (mode != "single" or run.tier == "thorough") else "MC_CliLite"
             cases, r = run.mc("MC_Cli", {"KV_MODE": mode}, out_name="cases-%s.ndjson" % mode, cfg=use)
+        # the number of CPUs (the context then parses with that many workers) is a parameter of the environment
+        # that no result may depend on: it rotates over the cases and travels with them
+        ls = [json.loads(l) for l in open(cases, encoding="utf-8") if l.strip()]
+        with open(cases, "w", encoding="utf-8") as f:
+            for i, c in enumerate(ls):
+                c.setdefault("cpus", (1, 2, 1, 3, 4, 1, 8, 2)[(i + run.seed) % 8])
+                # so is the way the target file is named: every fifth history names it through the default
+                # bookmark instead of an argument, with unrelated text waiting on standard input
+                if (i + run.seed) % 5 == 0 and "f.klg" in c.get("files", {}) and all(s["args"][-1] == "f.klg" for s in c["cmds"]):
+                    c["default_bookmark"] = "f.klg"
+                    c["stdin"] = "2020-01-01\n    1h from stdin\n"
+                    for s in c["cmds"]:
+                        s["args"] = s["args"][:-1]
+                f.write(json.dumps(c, ensure_ascii=False) + "\n")
         obs = run.drive(cases, obs_name="obs-%s.ndjson" % mode)
         events = flatten_cli(run, obs, "events-%s.ndjson" % mode)
         got = run.judge("Trace_Cli", events, env={"KV_RULES": rules + ",X."}, chunk=4000)
@@ -323,7 +365,7 @@ def c02(run):
 
 @check("C12", "Trace_Eval")
 def c12(run):
-    return eval_family(run, "C12", ["report", "total"], "files whose dates are drawn from a pool around ISO-week-year, month, quarter and year boundaries "
+    return eval_family(run, "C12", ["report", "total", "sort"], "files whose dates are drawn from a pool around ISO-week-year, month, quarter and year boundaries "
         "(unsorted, duplicates, negative totals) x report --aggregate day|week|month|quarter|year with --diff and with --fill, total, today, "
         "print --with-totals")
 
@@ -331,7 +373,10 @@ def c12(run):
 @check("C13", "Trace_Eval")
 def c13(run):
     pre = eval_family(run, "C13", ["shortcuts"], "", finish=False, chunk=3000)
-    return eval_family(run, "C13", ["filter"], flagged=pre, rule_text="every relative shortcut (this/last week, month, quarter, year, today, yesterday, tomorrow, "
+    pre = eval_family(run, "C13,C12.Rows", ["sort"], "", finish=False, chunk=300, flagged=pre)
+    return eval_family(run, "C13", ["filter"], flagged=pre, rule_text="all arrangements of three/four records with dates that confuse a field-wise "
+        "comparison (same month or day in other years, both notations) x every view that orders by date (json/print/print --with-totals --sort, report); "
+        "every relative shortcut (this/last week, month, quarter, year, today, yesterday, tomorrow, "
         "and the alias spellings) at reference dates sweeping two years (quick: boundary days plus every fifth day), on files with records "
         "at the boundaries of the denoted period; and a 14-record file with tags at record and entry level (dates placed relative to a reference date at "
         "offsets -400..+31 days, file order ascending and descending) x every date clause with boundary dates equal to record dates, every "
@@ -341,7 +386,9 @@ def c13(run):
 
 @check("C14", "Trace_Eval")
 def c14(run):
-    return eval_family(run, "C14", ["tags"], "all summaries `#` + 4 characters and `x#` + 3 characters + `#a` over a 14-character alphabet "
+    pre = eval_family(run, "C14.Match,C14.NoPanic", ["filter"], "", finish=False, chunk=4)
+    return eval_family(run, "C14", ["tags"], flagged=pre, rule_text="--tag clauses (names in any case, values, quoted values, two tags, next to date, "
+        "shortcut and entry-type clauses) on a 16-record file with tags at record and entry level; all summaries `#` + 4 characters and `x#` + 3 characters + `#a` over a 14-character alphabet "
         "(letters incl. non-ASCII and mixed case, digit, #, =, both quotes, _, -, space, !) plus redundancy patterns in record and entry "
         "summaries: `klog json` tags arrays and `klog tags --values --count --decimal` totals", chunk=3000)
 
@@ -364,7 +411,7 @@ def c20(run):
             f.write(json.dumps(c, ensure_ascii=False) + "\n")
     obs = run.drive(cases, obs_name="obs-invalid.ndjson")
     run.postprocess(obs, vlib.decode_json_fields)
-    flagged += run.judge("Trace_Parse", obs, env={"KV_RULES": "C10.Json"}, chunk=6000)
+    flagged += run.judge("Trace_Parse", obs, env={"KV_RULES": "C10.Json,C20.Stdin"}, chunk=6000)
     run.assumptions = ["well-formedness of the JSON text is decided by Python's json module (an independent parser) before TLC sees the value"]
     return vlib.finish(run, flagged, rule_text="`klog json` on every generated evaluation file (all entry kinds, tags, filters, --sort, --now, "
         "--pretty for invalid input): one well-formed document, exactly one of records/errors non-null, every field of every record and "
@@ -456,12 +503,25 @@ def c07(run):
         pool = [json.loads(l) for l in open(cases2, encoding="utf-8")]
         good = [c["text"] for c in pool if c["claim"] == "Conforming" and "\r" not in c["text"]]
         bad = [c["text"] for c in pool if c["claim"] == "Violating" and "\r" not in c["text"]]
-        for i in range(150 if run.tier == "quick" else 3000):
-            parts = [rnd.choice(good).strip("\n") for _ in range(rnd.randrange(8, 15))]
-            for _ in range(rnd.randrange(2, 4)):
+        for i in range(300 if run.tier == "quick" else 6000):
+            parts = [rnd.choice(good).strip("\n") for _ in range(rnd.randrange(3, 15))]
+            # every second document stays valid (the blocks are compared only then); the separators between the
+            # records are runs of one to three blank lines, some of them whitespace-only
+            for _ in range(rnd.randrange(2, 4) if i % 2 == 0 else 0):
                 parts[rnd.randrange(len(parts))] = rnd.choice(bad).strip("\n")
-            text = "\n\n".join(parts) + "\n"
-            f.write(json.dumps({"kind": "parse", "text": text, "workers": list(range(2, 19))}, ensure_ascii=False) + "\n")
+            text = ""
+            for k, p in enumerate(parts):
+                if i % 7 == 3 and (k == 0 or rnd.random() < 0.3):
+                    p = "\ufeff" + p               # a byte order mark in front of a headline (files glued together)
+                text += p + "\n" + rnd.choice(["\n", "\n", "\n\n", "\n \n", "\n\n\t\n", " \n\n"])
+            if rnd.random() < 0.3:
+                text = text.rstrip("\n")
+            if i % 7 == 5:
+                text = text.replace("\n", "\r\r\n")   # a CRLF file converted once more
+            elif i % 7 == 6:
+                text = text.replace("\n", "\r\n")
+            L = len(text.encode("utf-8"))
+            f.write(json.dumps({"kind": "parse", "text": text, "workers": list(range(2, 19)) + [L // 3, L // 2 + 1]}, ensure_ascii=False) + "\n")
         # one heavy case: every arrival order for 6 workers (720) on a multi-record document
         if run.tier == "thorough":
             for c in sched[:40]:
